@@ -508,71 +508,109 @@ fn real_threads_smoke(s: &'static Scenario, rounds: usize, copies: usize) -> boo
     true
 }
 
-pub fn run(tier: Tier, obligations: u64) -> i32 {
-    let mut rep = Report::new("C16", tier);
+/// Child mode: explore one scenario (bounded, then coarse unbounded, then the
+/// supporting real-thread smoke) and print one JSON line.
+pub fn scenario_child(tier: Tier, name: &str) -> i32 {
     install_hooks();
-    let mut st = Stats::default();
-    st.count("type_level_obligations_discharged", obligations);
-    let bounds: Vec<usize> = tier.pick(vec![0, 1, 2], vec![0, 1, 2, 3]);
+    let bounds: Vec<usize> = tier.pick(vec![0, 1, 2, 3], vec![0, 1, 2, 3]);
     let full: Vec<&str> = vec!["search-enter", "interpret", "call", "validate", "error", "get_function", "compile"];
     let coarse: Vec<&str> = vec!["search-enter", "call", "error"];
     let scs: &'static Vec<Scenario> = leak(scenarios(tier));
+    let s = match scs.iter().find(|s| s.name == name) {
+        Some(s) => s,
+        None => return 2,
+    };
+    let sb: Vec<usize> = bounds.iter().cloned().filter(|b| s.max_bound.map_or(true, |m| *b <= m)).collect();
+    let deep = s.max_bound.is_some();
+    let labels_here: Vec<&str> = if deep { vec!["interpret"] } else { full.clone() };
+    let r = explore(s, &sb, &labels_here, tier.pick(200_000, 3_000_000));
+    let mut out = json!({
+        "name": s.name,
+        "executions_per_preemption_bound": r.executions.iter().map(|(b, n)| json!({"bound": b, "executions": n})).collect::<Vec<_>>(),
+        "scheduling_points_hit": r.points,
+        "distinct_outcome_vectors": r.distinct_outcomes,
+        "capped": r.capped,
+        "labels": labels_here,
+        "expected": format!("{:?}", sequential(s)),
+        "threads": s.threads.iter().map(|t| format!("{:?}", t)).collect::<Vec<_>>(),
+        "expressions": s.exprs.iter().map(|e| crate::engine::trunc(e, 60)).collect::<Vec<_>>(),
+    });
+    if let Some((b, trace, got)) = r.failure {
+        out["failure"] = json!({"bound": b, "choices": trace, "got": got, "labels": labels_here});
+    } else if !deep {
+        let r2 = explore(s, &[usize::MAX], &coarse, tier.pick(100_000, 1_000_000));
+        let n2: u64 = r2.executions.iter().map(|x| x.1).sum();
+        out["unbounded_dfs_coarse_labels"] = json!({"executions": n2, "capped": r2.capped, "distinct_outcome_vectors": r2.distinct_outcomes, "scheduling_points_hit": r2.points});
+        if let Some((_, trace, got)) = r2.failure {
+            out["failure"] = json!({"bound": "unbounded", "choices": trace, "got": got, "labels": coarse});
+        }
+    }
+    out["real_threads_smoke_supporting_only"] = json!(real_threads_smoke(s, tier.pick(50, 500), if deep { 8 } else { 1 }));
+    out["max_steps_in_one_execution"] = json!(MAX_STEPS.load(Ordering::Relaxed));
+    println!("RESULT {}", out);
+    0
+}
+
+pub fn run(tier: Tier, obligations: u64) -> i32 {
+    let mut rep = Report::new("C16", tier);
+    let mut st = Stats::default();
+    st.count("type_level_obligations_discharged", obligations);
+    let bounds: Vec<usize> = tier.pick(vec![0, 1, 2, 3], vec![0, 1, 2, 3]);
+    let names: Vec<&'static str> = scenarios(tier).iter().map(|s| s.name).collect();
+    // one child process per scenario (shuttle runs an exploration on one OS thread; the
+    // scenarios are independent, and separate processes keep their global state apart)
+    let exe = std::env::current_exe().unwrap();
+    let results: Vec<(String, Option<Value>, String)> = {
+        use rayon::prelude::*;
+        names
+            .par_iter()
+            .map(|n| {
+                let o = std::process::Command::new(&exe).arg("C16-scenario").arg(tier.name()).arg(n).output().expect("spawn scenario child");
+                let txt = String::from_utf8_lossy(&o.stdout).to_string();
+                let v = txt.lines().find(|l| l.starts_with("RESULT ")).and_then(|l| serde_json::from_str::<Value>(&l[7..]).ok());
+                (n.to_string(), v, format!("status {:?}: {}", o.status.code(), String::from_utf8_lossy(&o.stderr).lines().last().unwrap_or("")))
+            })
+            .collect()
+    };
     let mut table = serde_json::Map::new();
-    for s in scs.iter() {
-        let sb: Vec<usize> = bounds.iter().cloned().filter(|b| s.max_bound.map_or(true, |m| *b <= m)).collect();
-        let deep = s.max_bound.is_some();
-        let labels_here: Vec<&str> = if deep { vec!["interpret"] } else { full.clone() };
-        let r = explore(s, &sb, &labels_here, tier.pick(200_000, 5_000_000));
-        let total: u64 = r.executions.iter().map(|x| x.1).sum();
-        st.states += total;
-        st.transitions += r.points;
-        st.validated += total;
-        st.evaluations += total;
-        st.nontrivial += r.executions.iter().filter(|x| x.0 > 0).map(|x| x.1).sum::<u64>();
-        st.capped |= r.capped;
-        st.outcome(&format!("{}: {} distinct outcome vector(s)", s.name, r.distinct_outcomes));
-        let mut entry = json!({"executions_per_preemption_bound": r.executions.iter().map(|(b, n)| json!({"bound": b, "executions": n})).collect::<Vec<_>>(), "scheduling_points_hit": r.points, "distinct_outcome_vectors": r.distinct_outcomes, "capped": r.capped});
-        if let Some((b, trace, got)) = r.failure {
+    for (name, v, diag) in results {
+        let v = match v {
+            Some(v) => v,
+            None => {
+                eprintln!("MACHINERY: scenario child '{}' gave no result ({})", name, diag);
+                return 2;
+            }
+        };
+        let total: u64 = v["executions_per_preemption_bound"].as_array().unwrap().iter().map(|e| e["executions"].as_u64().unwrap()).sum();
+        let pre: u64 = v["executions_per_preemption_bound"].as_array().unwrap().iter().filter(|e| e["bound"].as_u64().unwrap_or(0) > 0).map(|e| e["executions"].as_u64().unwrap()).sum();
+        let n2 = v["unbounded_dfs_coarse_labels"]["executions"].as_u64().unwrap_or(0);
+        st.states += total + n2;
+        st.validated += total + n2;
+        st.evaluations += total + n2;
+        st.nontrivial += pre + n2;
+        st.transitions += v["scheduling_points_hit"].as_u64().unwrap_or(0) + v["unbounded_dfs_coarse_labels"]["scheduling_points_hit"].as_u64().unwrap_or(0);
+        st.capped |= v["capped"].as_bool().unwrap_or(false);
+        if v["unbounded_dfs_coarse_labels"]["capped"].as_bool().unwrap_or(false) {
+            st.count("coarse_unbounded_capped", 1);
+        }
+        st.outcome(&format!("{}: {} distinct outcome vector(s)", name, v["distinct_outcome_vectors"]));
+        if let Some(f) = v.get("failure") {
             st.violate(Violation {
-                key: format!("C16/schedule/{}", s.name),
+                key: format!("C16/schedule/{}", name),
                 check: "schedules".into(),
-                case: json!({"kind": "schedule", "scenario": s.name, "bound": b, "labels": full, "choices": trace}),
-                expected: format!("{:?}", sequential(s)),
-                actual: got,
+                case: json!({"kind": "schedule", "scenario": name, "tier": tier.name(), "bound": f["bound"], "labels": f["labels"], "choices": f["choices"]}),
+                expected: v["expected"].as_str().unwrap_or("").to_string(),
+                actual: f["got"].as_str().unwrap_or("").to_string(),
             });
-        } else if !deep {
-            // unbounded DFS on the coarse label set
-            LABELS.store(mask_of(&coarse), Ordering::Relaxed);
-            let r2 = explore(s, &[usize::MAX], &coarse, tier.pick(100_000, 2_000_000));
-            let n2: u64 = r2.executions.iter().map(|x| x.1).sum();
-            st.states += n2;
-            st.transitions += r2.points;
-            st.validated += n2;
-            st.evaluations += n2;
-            st.nontrivial += n2;
-            entry["unbounded_dfs_coarse_labels"] = json!({"executions": n2, "capped": r2.capped, "distinct_outcome_vectors": r2.distinct_outcomes});
-            if r2.capped {
-                st.count("coarse_unbounded_capped", 1);
-            }
-            if let Some((_, trace, got)) = r2.failure {
-                st.violate(Violation {
-                    key: format!("C16/schedule/{}", s.name),
-                    check: "schedules".into(),
-                    case: json!({"kind": "schedule", "scenario": s.name, "bound": "unbounded", "labels": coarse, "choices": trace}),
-                    expected: format!("{:?}", sequential(s)),
-                    actual: got,
-                });
-            }
         }
-        st.sample(|| json!({"scenario": s.name, "threads": s.threads.iter().map(|t| format!("{:?}", t)).collect::<Vec<_>>(), "expressions": s.exprs}));
-        let ok = real_threads_smoke(s, tier.pick(50, 500), if deep { 8 } else { 1 });
-        entry["real_threads_smoke_supporting_only"] = json!(ok);
-        if !ok {
-            st.violate(Violation { key: format!("C16/real-threads/{}", s.name), check: "real-threads".into(), case: json!({"kind": "real-threads", "scenario": s.name}), expected: "sequential results".into(), actual: "divergent".into() });
+        if v["real_threads_smoke_supporting_only"] == json!(false) {
+            st.violate(Violation { key: format!("C16/real-threads/{}", name), check: "real-threads".into(), case: json!({"kind": "real-threads", "scenario": name}), expected: "sequential results".into(), actual: "divergent".into() });
         }
-        table.insert(s.name.to_string(), entry);
+        st.sample(|| json!({"scenario": name, "threads": v["threads"], "expressions": v["expressions"]}));
+        table.insert(name, v);
     }
     // first use of the default runtime
+    install_hooks();
     if let Some((trace, what)) = explore_first_use(tier.pick(2, 3), &mut st) {
         st.violate(Violation { key: "C16/first-use".into(), check: "first-use".into(), case: json!({"kind": "first-use", "choices": trace}), expected: "sequential observations".into(), actual: what });
     }
@@ -583,11 +621,12 @@ pub fn run(tier: Tier, obligations: u64) -> i32 {
     rep.guard("pre-empting schedules were explored", st.nontrivial > 100);
     rep.guard("fresh-process first-use schedules were explored", fu > 5);
     rep.guard("type-level obligations discharged", obligations > 0);
-    rep.rule = "leg 1 (compile time): Send + Sync obligations on the public types under --features sync and the library under -F unsafe_code; leg 2: for each scenario (2-3 threads x 2 operations on shared Arc<Expression> / shared Arc inputs, chosen to collide: failing calls at different offsets, by-functions with nested calls, a shared literal, a custom runtime whose functions yield, compile inside threads) every schedule with at most c pre-emptions for c = 0,1,2(,3) over the hook points {search-enter, interpret, call, validate, error, get_function, compile}, plus unbounded DFS over the coarse points {search-enter, call, error}; first use of DEFAULT_RUNTIME: one fresh process per schedule with bounded deviations. Oracle: every thread's observations (values / full error structs) equal the sequential run; inputs unchanged. states = executions; transitions = scheduling points hit; non-trivial = executions with at least one pre-emption allowed".into();
-    rep.bounds = json!({"preemption_bounds": bounds, "scenarios": table, "max_steps_in_one_execution": MAX_STEPS.load(Ordering::Relaxed)});
+    rep.rule = "leg 1 (compile time): Send + Sync obligations on the public types under --features sync and the library under -F unsafe_code; leg 2: for each scenario (2-3 threads on shared Arc<Expression> / shared Arc inputs, chosen to collide: failing calls at different offsets, by-functions with nested calls, a shared literal, a custom runtime whose functions yield, compile inside threads, deep expressions whose evaluations overlap) every schedule with at most c pre-emptions for c = 0,1,2(,3) over the hook points {search-enter, interpret, call, validate, error, get_function, compile}, plus unbounded DFS over the coarse points {search-enter, call, error}; first use of DEFAULT_RUNTIME: one fresh process per schedule with bounded deviations. Oracle: every thread's observations (values / full error structs) equal the sequential run; inputs unchanged. states = executions; transitions = scheduling points hit; non-trivial = executions with at least one pre-emption allowed".into();
+    rep.bounds = json!({"preemption_bounds": bounds, "scenarios": table});
     rep.assumptions = vec![
         "steps between two hook points are atomic to the explorer; std atomics and Arc counts are not modelled by shuttle: a race confined to one such step is excluded only by leg 1 (no unsafe code + Send/Sync bounds)".into(),
         "the lazy initialiser of DEFAULT_RUNTIME contains no hook point (std::sync::Once is trusted)".into(),
+        "a capped unbounded DFS on the coarse labels is reported as capped; the pre-emption bounded explorations are complete unless 'capped' says otherwise".into(),
     ];
     rep.exhaustive = true;
     rep.stats = st;
@@ -607,7 +646,7 @@ pub fn replay(case: &Value) -> Option<(String, bool)> {
             let lrefs: Vec<&str> = labels.iter().map(|s| s.as_str()).collect();
             let qs: &'static Vec<Scenario> = leak(scenarios(Tier::Quick));
             let q = qs.iter().find(|s| s.name == name)?;
-            let r = replay_schedule(q, &lrefs, choices.clone()).or_else(|| replay_schedule(s, &lrefs, choices));
+            let r = if case["tier"] == json!("thorough") { replay_schedule(s, &lrefs, choices) } else { replay_schedule(q, &lrefs, choices) };
             Some(match r {
                 Some(g) => (format!("divergent observations: {}", g), true),
                 None => ("schedule gives the sequential observations".into(), false),
